@@ -22,7 +22,7 @@ import (
 
 func init() {
 	vf.Register(&vf.CheckDef{ID: "C04", Level: "model_checking", Run: run,
-		Workers: map[string]vf.WorkerFunc{"sched": schedWorker, "arrival": arrivalWorker, "audit": auditWorker},
+		Workers: map[string]vf.WorkerFunc{"sched": schedWorker, "arrival": arrivalWorker, "audit": auditWorker, "race": raceWorker},
 		Replay:  replay})
 }
 
@@ -547,6 +547,7 @@ func enumerate(quick bool) (pairs [][]*config) {
 		input{Name: "csv-ragged", Fmt: "csv", Flags: []string{"--allow-ragged-csv-input"}, Files: []string{"i,g\n1,a\n2\n3,a,x\n"}, Recs: []string{"i=1,g=a", "i=2", "i=3,g=a,3=x"}},
 		input{Name: "csv-two-files-other-header", Fmt: "csv", Files: []string{"i,g\n1,a\n2,b\n", "g,i\nb,3\n"}, Recs: []string{"i=1,g=a", "i=2,g=b", "g=b,i=3"}},
 		input{Name: "csvlite-two-files-same-header", Fmt: "csvlite", Files: []string{"i,g\n1,a\n", "i,g\n2,b\n3,a\n"}, Recs: []string{"i=1,g=a", "i=2,g=b", "i=3,g=a"}},
+		input{Name: "dkvp-late-group", Fmt: "dkvp", Files: []string{"i=1,g=a\ni=2,g=a\ni=3,g=a\ni=4,g=b\n"}, Recs: []string{"i=1,g=a", "i=2,g=a", "i=3,g=a", "i=4,g=b"}},
 		input{Name: "dkvp-heterogeneous", Fmt: "dkvp", Files: []string{"i=1,g=a\nh=2\ni=3,g=b,k=9\ni=4\n"}, Recs: []string{"i=1,g=a", "h=2", "i=3,g=b,k=9", "i=4"}},
 	)
 	byName := map[pairKey][]*config{}
@@ -574,11 +575,15 @@ func enumerate(quick bool) (pairs [][]*config) {
 				keep := map[string]bool{"cat": true, "head -n 1": true, "head -n 2": true, "head -n 2 then head -n 1": true, "tac": true, "tail -n 1": true,
 					"tee @T then head -n 1": true, "cat then head -n 2": true, "step -a delta,shift -f i": true, "cat -n -g g": true, "count-similar -g g": true,
 					`put print "p".$i`: true, "nothing": true, "sort -nr i": true, "fill-down -a -f g then sec2gmt i": true}
+				if in.Name == "dkvp-late-group" {
+					// a group that first appears after every earlier group is complete: an early-exit signal must not hide it
+					keep = map[string]bool{"head -n 1 -g g": true, "head -n 1 -g g then head -n 1": true, "uniq -g g -c": true, "group-by g then head -n 1": true, "cat -n -g g": true, "count-similar -g g": true}
+				}
 				if !keep[ch.Name] {
 					continue
 				}
 			}
-			if custom && ch.Ref != nil && !(ch.Name == "cat" || ch.Name == "tac" || ch.Name == "nothing" || strings.HasPrefix(ch.Name, "head -n") && !strings.Contains(ch.Name, "put") && !strings.Contains(ch.Name, "-g") || ch.Name == "tail -n 1" || strings.HasPrefix(ch.Name, "tee @T then head") || strings.HasPrefix(ch.Name, "cat then head")) {
+			if custom && ch.Ref != nil && !(ch.Name == "cat" || in.Name == "dkvp-late-group" || ch.Name == "tac" || ch.Name == "nothing" || strings.HasPrefix(ch.Name, "head -n") && !strings.Contains(ch.Name, "put") && !strings.Contains(ch.Name, "-g") || ch.Name == "tail -n 1" || strings.HasPrefix(ch.Name, "tee @T then head") || strings.HasPrefix(ch.Name, "cat then head")) {
 				ch.Ref = nil // references that look inside the records assume the i/g schema: singleton law only
 			}
 			if in.Fmt != "dkvp" && !(strings.HasPrefix(ch.Name, "cat") || strings.HasPrefix(ch.Name, "head -n 1") || strings.HasPrefix(ch.Name, "head -n 2 then head") || ch.Name == "tac" || strings.HasPrefix(ch.Name, "tee")) {
@@ -747,6 +752,14 @@ func run(c *vf.Ctx) {
 	c.RunPool(vf.PoolSpec{Worker: "audit", Sched: true, Shards: 8, StallSecs: 600})
 	if c.Counters["explorer_self_audits"] < 6 {
 		c.Broken("explorer self-audit ran on %d configurations only (expected 8): the audited configuration names no longer exist", c.Counters["explorer_self_audits"])
+	}
+	if rb := os.Getenv("VERIF_BIN_RACE"); rb != "" {
+		rdir, _ := os.MkdirTemp("/dev/shm", "verif-c04race-")
+		c.RunPool(vf.PoolSpec{Worker: "race", Bin: rb, Shards: 16, StallSecs: 900, Env: []string{"VERIF_RACE_LOG=" + filepath.Join(rdir, "race"), "GORACE=halt_on_error=0 exitcode=0 log_path=" + filepath.Join(rdir, "race")}})
+		os.RemoveAll(rdir)
+		c.Assume("the free-running -race pass is sampling: it decides nothing about schedules; it validates the no-shared-memory assumption of the exhaustive exploration and reports what the detector sees")
+	} else {
+		c.Broken("race-detector build missing (VERIF_BIN_RACE)")
 	}
 	c.Extra["arrival_history_configurations"] = len(arrivalConfigs(c.Quick()))
 	c.TracesValidated = c.Counters["executions_completed"]
